@@ -23,7 +23,21 @@ type Proc struct {
 	Type  string `json:"type"`
 	Hdr   string `json:"header,omitempty"` // Filter: hits iff the transaction carries <Hdr>: 1
 	Quota string `json:"quota,omitempty"`  // Limiter
+	// GenerateResponse: status of the early response (0 = 429).  Together with the
+	// body ("answered by <declaring flow>.<key>") it says which processor INSTANCE
+	// produced an early response: the same key may be declared by several flows.
+	Status int `json:"status,omitempty"`
 }
+
+// genStatus / genBody: the content of the early response of a GenerateResponse
+// processor declared by flow `owner`.
+func (p *Proc) genStatus() int {
+	if p.Status == 0 {
+		return 429
+	}
+	return p.Status
+}
+func genBody(owner, key string) string { return "answered by " + owner + "." + key }
 
 // End is one side of a connection.
 type End struct {
@@ -61,6 +75,21 @@ func (c *Config) flow(name string) *FlowCfg {
 	for i := range c.Flows {
 		if c.Flows[i].Name == name {
 			return &c.Flows[i]
+		}
+	}
+	return nil
+}
+
+// proc: the declaration of a processor instance (nil: a quota system processor
+// or nothing declared under that name).
+func (c *Config) proc(i Inst) *Proc {
+	f := c.flow(i.Flow)
+	if f == nil {
+		return nil
+	}
+	for k := range f.Procs {
+		if f.Procs[k].Key == i.Name {
+			return &f.Procs[k]
 		}
 	}
 	return nil
@@ -110,7 +139,7 @@ func (f *FlowCfg) YAML() string {
 		case tFilter:
 			fmt.Fprintf(&sb, "    parameters:\n      - key: header\n        value: %s=1\n", p.Hdr)
 		case tGen:
-			fmt.Fprintf(&sb, "    parameters:\n      - key: status\n        value: 429\n      - key: body\n        value: answered by %s\n", p.Key)
+			fmt.Fprintf(&sb, "    parameters:\n      - key: status\n        value: %d\n      - key: body\n        value: %s\n", p.genStatus(), genBody(f.Name, p.Key))
 		case tLimit:
 			fmt.Fprintf(&sb, "    parameters:\n      - key: quota_id\n        value: %s\n", p.Quota)
 		}
@@ -158,6 +187,47 @@ type GFlow struct {
 	Res  GDir   `json:"response"`
 	// Owner[key] = flow whose `processors:` section declares the processor
 	Owner map[string]string `json:"owner"`
+	// the processor references of the connections, per direction, in the order
+	// the connection lists are read (a referenced flow's connections where the
+	// reference stands): input of the Coq model's node -> instance resolution
+	ReqRefs []Mention `json:"request_refs,omitempty"`
+	ResRefs []Mention `json:"response_refs,omitempty"`
+}
+
+// Mention: connection list of flow Cur names processor Ref ("k" or "G.k").
+type Mention struct {
+	Cur string `json:"in_flow"`
+	Ref string `json:"ref"`
+}
+
+// Inst names a processor instance: the flow whose `processors:` section declares
+// it and its key there.
+type Inst struct {
+	Flow string `json:"flow"`
+	Name string `json:"name"`
+}
+
+func (i Inst) String() string { return i.Flow + "." + i.Name }
+
+// splitRef: "G.k" -> ("G", "k"); "k" -> ("", "k").
+func splitRef(ref string) (by, name string) {
+	if i := strings.Index(ref, "."); i >= 0 {
+		return ref[:i], ref[i+1:]
+	}
+	return "", ref
+}
+
+// instOf: the instance the CONFIGURATION names for node `key` of flow g (the
+// text's reading: "G.k" is processor k of flow G, a plain key is the processor
+// of the flow whose connections mention it).
+func (g *GFlow) instOf(key string) Inst {
+	if by, name := splitRef(key); by != "" {
+		return Inst{by, name}
+	}
+	if o, ok := g.Owner[key]; ok && o != "" {
+		return Inst{o, key}
+	}
+	return Inst{g.Name, key}
 }
 
 func (d *GDir) node(key string) *GNode {
@@ -227,6 +297,43 @@ func (c *Config) Compile() ([]GFlow, error) {
 		for di, conns := range [][]Conn{f.Req, f.Res} {
 			isReq := di == 0
 			var d GDir
+			var refs []Mention
+			// the processors a connection list names, in the order the loader reads them
+			var note func(cur string, conns []Conn)
+			// (a reference repeated in the same connection list is listed once: only
+			// the first mention of a node key creates the node)
+			add := func(m Mention) {
+				for _, x := range refs {
+					if x == m {
+						return
+					}
+				}
+				refs = append(refs, m)
+			}
+			note = func(cur string, conns []Conn) {
+				for _, cn := range conns {
+					if cn.From.Kind == "proc" {
+						add(Mention{cur, cn.From.Name})
+					}
+					if cn.To.Kind == "proc" {
+						add(Mention{cur, cn.To.Name})
+					}
+					var x *FlowCfg
+					if cn.From.Kind == "flow" {
+						x = c.flow(cn.From.Name)
+					} else if cn.To.Kind == "flow" {
+						x = c.flow(cn.To.Name)
+					}
+					if x != nil && x.Name != cur {
+						if isReq {
+							note(x.Name, x.Req)
+						} else {
+							note(x.Name, x.Res)
+						}
+					}
+				}
+			}
+			note(f.Name, conns)
 			for _, cn := range conns {
 				switch {
 				case cn.From.Kind == "flow":
@@ -283,9 +390,9 @@ func (c *Config) Compile() ([]GFlow, error) {
 				}
 			}
 			if isReq {
-				g.Req = d
+				g.Req, g.ReqRefs = d, refs
 			} else {
-				g.Res = d
+				g.Res, g.ResRefs = d, refs
 			}
 		}
 		out = append(out, g)
@@ -326,11 +433,18 @@ func (c *Config) Compile() ([]GFlow, error) {
 				owner[id+"_QuotaProcessorDec"] = ""
 			}
 		}
-		out = append(out, GFlow{Name: "SystemFlow_" + qs[0].ID + "_SYSTEM_FLOW_START", Kind: "start",
-			Req: chain(incs), Owner: owner})
+		refsOf := func(flow string, keys []string) []Mention {
+			var ms []Mention
+			for _, k := range keys {
+				ms = append(ms, Mention{flow, k})
+			}
+			return ms
+		}
+		sn := "SystemFlow_" + qs[0].ID + "_SYSTEM_FLOW_START"
+		out = append(out, GFlow{Name: sn, Kind: "start", Req: chain(incs), Owner: owner, ReqRefs: refsOf(sn, incs)})
 		if len(decs) > 0 {
-			out = append(out, GFlow{Name: "SystemFlow_" + qs[0].ID + "_SYSTEM_FLOW_END", Kind: "end",
-				Res: chain(decs), Owner: owner})
+			en := "SystemFlow_" + qs[0].ID + "_SYSTEM_FLOW_END"
+			out = append(out, GFlow{Name: en, Kind: "end", Res: chain(decs), Owner: owner, ResRefs: refsOf(en, decs)})
 		}
 	}
 	return out, nil
